@@ -231,6 +231,9 @@ async fn write_file(fm: &FileManager, file_type: FileType, data: &[u8]) -> Resul
 	file.write_all(data)
 		.await
 		.map_err(|e| Error::from(e).prefix(&path.display().to_string()))?;
+	file.flush()
+		.await
+		.map_err(|e| Error::from(e).prefix(&path.display().to_string()))?;
 	#[cfg(feature = "breard_r_acmed_verif")]
 	crate::verif::emit(
 		"FileWrite",
